@@ -77,10 +77,14 @@ def _one(args):
     from ..gen import battle as gbattle
     # non-finite floats are legal FLOAT32/FLOAT64/VECTOR values: fields the battle does not set itself carry them in some runs
     gbattle.FLOAT_BITS = {'inf': (0x7f800000, 0x7ff0000000000000), '-inf': (0xff800000, 0xfff0000000000000), 'nan': (0x7fc00000, 0x7ff8000000000000)}.get(floats)
+    badmap = (floats == '-inf')        # these runs also carry an arena name that is not valid UTF-8
+    if badmap:
+        gbattle.ARENA_BYTES = b'spaces/08_NE_passag\xff'
     try:
         b, exp, err = battlecheck.make_battle(game, version, seed, rich=True, ids=ids)
     finally:
         gbattle.FLOAT_BITS = None
+        gbattle.ARENA_BYTES = None
     if b is None:
         out['problems'].append(('setup', err))
         return out
@@ -91,11 +95,22 @@ def _one(args):
     unwritable = '@RAW-BAD' in extra_args
     extra_args = [raw_ok if a == '@RAW-OK' else raw_bad if a == '@RAW-BAD' else a for a in extra_args]
     try:
+        # standard output is captured as bytes; the document has to be UTF-8 text (the stream's encoding is pinned, not inherited)
         p = subprocess.run([common.PY, os.path.join(common.REPO, 'replay_parser.py'), '--replay', path] + extra_args,
-                           cwd=common.REPO, stdout=subprocess.PIPE, stderr=subprocess.PIPE, text=True, timeout=300)
-        ok, doc = one_document(p.stdout)
+                           cwd=common.REPO, stdout=subprocess.PIPE, stderr=subprocess.PIPE, timeout=300, env=dict(os.environ, PYTHONIOENCODING='utf-8'))
+        p.stderr = p.stderr.decode('utf-8', 'replace')
+        try:
+            p.stdout = p.stdout.decode('utf-8')
+            ok, doc = one_document(p.stdout)
+        except UnicodeDecodeError as e:
+            p.stdout = p.stdout.decode('utf-8', 'replace')
+            ok, doc = False, 'standard output is not UTF-8 text: %s' % e
         out['stderr_bytes'] = len(p.stderr)
-        if unwritable and '--strict_mode' in extra_args and p.returncode != 0:
+        if badmap and '--strict_mode' in extra_args and p.returncode != 0 and game != 'wowp':
+            # strict mode is asked to fail on the undecodable map packet: nothing at all may have reached standard output
+            if p.stdout.strip():
+                out['problems'].append(('cli', 'strict run failing on the map packet still wrote to standard output: %r' % p.stdout[:80]))
+        elif unwritable and '--strict_mode' in extra_args and p.returncode != 0:
             # strict mode is asked to fail on the unwritable dump: nothing at all may have reached standard output
             if p.stdout.strip():
                 out['problems'].append(('cli', 'strict run failing on the dump still wrote to standard output: %r' % p.stdout[:80]))
